@@ -180,21 +180,21 @@ Definition evalC (c : compE) : comp :=
   mkC (Q2R (ce_n c)) (Q2R (ce_m c)) (evalR no_env_R (ce_re c)) (evalR no_env_R (ce_im c)) (evalR no_env_R (ce_ss c)).
 
 (* interpolation, expression reading: the abscissae are square roots (wavelengths of tabulated
-   energies), so the segment is chosen by comparing the exact squares; a node is
-   (x_j^2 : Q, x_j : expr, y_j : Q) *)
+   energies), so which segment holds x is decided exactly on rationals by the caller
+   ([lt n] decides x < x_n, [le n] decides x <= x_n); a node is (key, x_j : expr, y_j : Q) *)
 Definition Qltb (x y : Q) : bool := negb (Qle_bool y x).
 Definition enode := (Q * expr * Q)%type.
-Fixpoint E_interp_from (sq : Q) (x : expr) (x0 : expr) (y0 : Q) (rest : list enode) : expr :=
+Fixpoint E_interp_from (lt : enode -> bool) (x : expr) (x0 : expr) (y0 : Q) (rest : list enode) : expr :=
   match rest with
   | [] => cq y0
-  | (s1, x1, y1) :: r =>
-      if Qltb sq s1 then EAdd (cq y0) (EMul (ESub (cq y1) (cq y0)) (EDiv (ESub x x0) (ESub x1 x0)))
-      else E_interp_from sq x x1 y1 r
+  | (k1, x1, y1) :: r =>
+      if lt (k1, x1, y1) then EAdd (cq y0) (EMul (ESub (cq y1) (cq y0)) (EDiv (ESub x x0) (ESub x1 x0)))
+      else E_interp_from lt x x1 y1 r
   end.
-Definition E_interp (sq : Q) (x : expr) (t : list enode) : expr :=
+Definition E_interp (le lt : enode -> bool) (x : expr) (t : list enode) : expr :=
   match t with
   | [] => ez 0
-  | (s0, x0, y0) :: r => if Qle_bool sq s0 then cq y0 else E_interp_from sq x x0 y0 r
+  | (k0, x0, y0) :: r => if le (k0, x0, y0) then cq y0 else E_interp_from lt x x0 y0 r
   end.
 Definition E_abundance_mix (b175 : expr) (a175 : Q) (b176 : expr) (a176 : Q) : expr :=
   EDiv (EAdd (EMul b175 (cq a175)) (EMul b176 (cq a176))) (ez 100).
